@@ -57,7 +57,14 @@ def check_case(spec, inst, mo, rnd, res=None):
                 for key in ('reaches', 'requires'):
                     if s.get(key) and id(s[key]['stepExpressions']) in spec_containers and res is not None:
                         res.bump('answer_shares_expression_list_with_spec')
+    def exposed(tag):
+        # what the language graph itself records as the steps of each asset (its step nodes) is the same fold
+        for a in lg.assets:
+            got = [st.name for st in a.attack_steps]
+            if a.name in want and sorted(got) != sorted(k for k, _ in want[a.name]):
+                probs.append(f'step nodes of {a.name} in the language graph differ from the root-down fold ({tag})'); return
     ask_all('first queries')
+    if not probs: exposed('after construction')
     if not probs and lg._lang_spec != snapshot: probs.append('language specification modified by step lookups')
     if not probs:
         lg.regenerate_graph()
@@ -68,6 +75,7 @@ def check_case(spec, inst, mo, rnd, res=None):
         except Exception as e:
             if res: res.notes.append('graph generation failed in C03 case: ' + type(e).__name__)
         ask_all('after regenerating the language graph and building two attack graphs')
+        if not probs: exposed('after regenerating the language graph')
         if not probs and lg._lang_spec != snapshot: probs.append('language specification modified by graph generation')
     if probs:
         return Violation(what=probs[0], fingerprint='C03:' + probs[0].split(' (')[0][:60].replace(next((t for t in types if f' {t} ' in probs[0]), '#'), 'T'),
